@@ -611,7 +611,7 @@ class Hdf5Storage(Storage):
         f = h5py.File(filename, mode=mode)
         if subgroup is not None:
             if subgroup in f:
-                f = subgroup[f]
+                f = f[subgroup]
             else:
                 f = f.create_group(subgroup)
         res = cls(f)
